@@ -169,6 +169,10 @@ def run_workers(fn, seeds, kwargs=None, nproc=None):
             total.merge(_worker_entry((fn, s, kwargs)))
         return total
     ctx = multiprocessing.get_context("fork")
+    # pool workers leave through os._exit (no atexit): their scratch directories are made inside
+    # this process's one, which is removed when this process ends
+    from . import server as _server
+    os.environ["VERIF_SCRATCH"] = _server.scratch_root()
     with ctx.Pool(nproc) as pool:
         for r in pool.imap_unordered(_worker_entry, [(fn, s, kwargs) for s in seeds]):
             total.merge(r)
